@@ -93,6 +93,7 @@ const (
 	oSort
 	oRead
 	oWrite
+	oSortWrite // s = H.sort(); s[0] = X: the original is untouched
 	nOps
 )
 
@@ -194,6 +195,8 @@ func VHC15Sequence() {
 				}
 			}
 			want += c15Render(sorted) + "\n"
+		case oSortWrite:
+			prog += "srt = " + h + ".sort()\nsrt[0] = 9\nsrt.push(9)\n"
 		case oRead:
 			i := c15Idx[vh.Choose("i"+itoa(step), len(c15Idx))]
 			prog += "print " + h + "[" + itoa2(i) + "]\n"
@@ -261,6 +264,8 @@ var c15Nested = [][2]string{
 	{"BEGIN { a = [2, 1]; s = a.sort(); s.push(0); print a, s }", "[2, 1] [1, 2, 0]\n"},
 	{"BEGIN { a = ['b', 'a', 'B', 10, 9]; print a.sort(), a }", "[10, 9, \"B\", \"a\", \"b\"] [\"b\", \"a\", \"B\", 10, 9]\n"},
 	{"BEGIN { a = [10, 9, 1]; print a.sort() }", "[1, 9, 10]\n"},
+	{"BEGIN { a = [3, 1, 2]; s = a.sort(); s[0] = 99; s[2] += 1; print a, s }", "[3, 1, 2] [99, 2, 4]\n"},
+	{"BEGIN { a = [[2], [1]]; s = a.sort(); a[0] = 7; print s.length(), a }", "2 [7, [1]]\n"},
 	{"BEGIN { a = [1, null, 'x']; print a.contains(null), a.contains('x'), a.contains(2) }", "true true false\n"},
 }
 
